@@ -40,6 +40,9 @@ def crest : List CE :=
 
 def good : List CE := cpre ++ .effBegin 10 (.setMeta m1) :: crest
 
+theorem good_wf : CWf [] good := by
+  simp [good, cpre, crest, CWf, CWfStep, seenStep]
+
 theorem hinert : ∀ b, htView P d0 b = d0.pages File.fHt b := fun _ => rfl
 
 /-- the state when the meta write begins: nothing is volatile -/
